@@ -1800,6 +1800,10 @@ class PEval:
                             self.lookup(env, ref_decl(s0)['id'])
                         except KeyError:
                             v = self.ev(a, env, depth)
+                    elif qt.rstrip().endswith('&') and 'const' not in qt and s0.get('kind') == 'UnaryOperator' and s0.get('opcode') == '*':
+                        # a reference bound to `*ptr`: the object the pointer designates
+                        pv_ = self.ev(kids(s0)[0], env, depth)
+                        v = Ref(pv_.env, pv_.key) if isinstance(pv_, Ref) else self.ev(a, env, depth)
                     else:
                         v = self.ev(a, env, depth)
                 if isinstance(v, int):
